@@ -100,6 +100,9 @@ func runShapes(e *twig.Engine, v interface{}, text string, pureOnly bool, render
 		want := sh.pre + text + sh.post
 		for _, p := range shapePositions {
 			var outs [2]string
+			if len(text) > 4096 {
+				tick()
+			}
 			for k, f := range filterNames {
 				out, err := e.Render(shapeTpl(p.name, sh.name, f), shapeCtx(v))
 				*renders++
